@@ -1,7 +1,7 @@
 (* C12/Live.v — the obligation on the regenerated table: every live class parses and serialises consistently.  Re-checked (vm_compute) whenever gen/ClassTables.v changes. *)
 From Coq Require Import String List Bool Arith NArith.
-From Verif Require Import Base.Str Base.Xml Base.ClassTable C12.Model C12.Spec.
-From VerifGen Require Import ClassTables.
+From Verif Require Import Base.Str Base.Xml Base.ClassTable C12.Model C12.Spec C12.Xsd.
+From VerifGen Require Import ClassTables C12Schema.
 Import ListNotations.
 Open Scope string_scope.
 
@@ -12,4 +12,12 @@ Lemma live_classes_wf c ci : class_at live_table c = Some ci -> wf_class live_ta
 Proof. apply wf_table_class. exact live_table_ok. Qed.
 
 Lemma live_table_size : (0 <? length live_table)%nat = true.
+Proof. vm_compute. reflexivity. Qed.
+
+(* the order table (c_child_order) of every live class never contradicts the content model the shipped XML Schema
+   files give for the class's element / type (gen/C12Schema.v, regenerated from src/saml2/data/schemas/*.xsd) *)
+Lemma live_xsd_ok : xsd_consistent_b live_table live_xsd = true.
+Proof. vm_compute. reflexivity. Qed.
+
+Lemma live_xsd_size : (0 <? length live_xsd)%nat = true.
 Proof. vm_compute. reflexivity. Qed.
